@@ -66,6 +66,8 @@ func (p *FinalLimitPlan) Batch(ctx *ExecuteCtx) ([][]Column, error) {
 		}
 		if nrows <= restSkips {
 			p.skips += nrows
+			// All rows of this batch are skipped, do not return them
+			rows = nil
 		} else {
 			p.skips += restSkips
 			rows = rows[restSkips:]
@@ -204,6 +206,8 @@ func (p *LimitPlan) Batch(ctx *ExecuteCtx) ([]KVPair, error) {
 		}
 		if nrows <= restSkips {
 			p.skips += nrows
+			// All rows of this batch are skipped, do not return them
+			rows = nil
 		} else {
 			p.skips += restSkips
 			rows = rows[restSkips:]
